@@ -68,6 +68,7 @@ impl Ctx {
     pub fn begin(&mut self) -> Option<usize> {
         let i = self.next_index;
         self.next_index += 1;
+        crate::watch::set_index(i);
         match self.only {
             Some(k) if k != i => None,
             _ => Some(i),
